@@ -45,6 +45,54 @@ def _outcome_stats(logs: Dict[int, List[list]]) -> Dict[str, int]:
     return stats
 
 
+def _mask_ip(log: List[list]) -> List[list]:
+    return [ev[:9] + [[-1]] for ev in log]
+
+
+def diagnose(res: CheckResult, name: str, mism: List[dict], cur: Dict[str, bool], async_sched: bool) -> int:
+    """Validate the recorded traces that differ from the model's prediction; attribute every rejection.
+
+    Each trace is validated twice: as recorded, and with the in-progress views masked, so that a divergence of
+    the suspension state (C10/C11/C12 clauses) does not hide a later behavioural divergence (and vice versa).
+    """
+    if not mism:
+        return 0
+    batch = mism[:200]
+    items = []
+    for it in batch:
+        items.append(it)
+        items.append(dict(it, log=_mask_ip(it["log"]), masked=True))
+    rv, verdicts = C.validate_traces(items, cur, async_sched)
+    if rv.error:
+        raise MachineryError("trace validation failed: " + rv.error[:1500])
+    ndiag = 0
+    for it, vd in zip(items, verdicts):
+        if vd is None:
+            raise MachineryError("no verdict for trace of program {}".format(it["pid"]))
+        ndiag += 1
+        if vd["verdict"] == "ok":
+            if not it.get("masked"):
+                res.note("unit {}: a trace differs from the model's log but is accepted (don't-care)".format(name))
+            continue
+        if vd["verdict"] == "truncated":
+            clause, props = "exc.dropped", {"C11"}
+            vd = dict(vd, exp=["?"], act=["eot"])
+        else:
+            clause, props = attribute(vd, it["prog"])
+        what = "family {}: expected {} but the implementation did {} (event {} of program {}{})".format(
+            name, vd.get("exp"), vd.get("act"), vd.get("at"), it["pid"],
+            ", schedule " + "".join(str(e[1]) for e in it["log"]) if len(it["prog"]["drv"]) > 1 else "")
+        if res.prop in props:
+            res.violation(clause, what, {"signature": clause, "unit": name, "program": it["prog"],
+                                         "recorded": it["log"], "expected": it.get("expected"), "diagnosis": vd})
+        elif not props:
+            raise MachineryError("unclassified divergence ({}): {}".format(clause, what))
+        else:
+            res.note("nonconformance outside {} (clause={} -> {}) in unit {}".format(
+                res.prop, clause, ",".join(sorted(props)), name))
+    return ndiag
+
+
 def call_unit(res: CheckResult, name: str, progs: List[dict], ic: Any, mode: str = "single",
               invariants: Optional[List[str]] = None, max_behaviours_per_prog: int = 4,
               rng: Optional[random.Random] = None, require_outcomes: Iterable[str] = ()) -> None:
@@ -99,34 +147,7 @@ def call_unit(res: CheckResult, name: str, progs: List[dict], ic: Any, mode: str
     res.traces += nrun
     res.evaluations += nrun
     # 4. diagnose mismatches with the trace specification (named clause -> properties)
-    ndiag = 0
-    if mism:
-        batch = mism[:300]
-        rv, verdicts = C.validate_traces(batch, cur, async_sched)
-        if rv.error:
-            raise MachineryError("trace validation failed: " + rv.error[:1500])
-        for it, vd in zip(batch, verdicts):
-            if vd is None:
-                raise MachineryError("no verdict for trace of program {}".format(it["pid"]))
-            ndiag += 1
-            if vd["verdict"] == "ok":
-                res.note("unit {}: a trace differs from the model's log but is accepted (don't-care)".format(name))
-                continue
-            if vd["verdict"] == "truncated":
-                clause, props = "exc.dropped", {"C11"}
-                vd = dict(vd, exp=["?"], act=["eot"])
-            else:
-                clause, props = attribute(vd, it["prog"])
-            what = "family {}: expected {} but the implementation did {} (event {} of program {})".format(
-                name, vd.get("exp"), vd.get("act"), vd.get("at"), it["pid"])
-            if res.prop in props:
-                res.violation(clause, what, {"signature": clause, "unit": name, "program": it["prog"],
-                                             "recorded": it["log"], "expected": it["expected"], "diagnosis": vd})
-            elif not props:
-                raise MachineryError("unclassified divergence ({}): {}".format(clause, what))
-            else:
-                res.note("nonconformance outside {} (clause={} -> {}) in unit {}".format(
-                    res.prop, clause, ",".join(sorted(props)), name))
+    ndiag = diagnose(res, name, mism, cur, async_sched)
     res.add_unit(name, programs=len(progs), states=r_off.distinct, behaviours_replayed=nrun, mismatches=len(mism),
                  diagnosed=ndiag, outcomes=stats, mode=mode)
 
@@ -220,33 +241,32 @@ def conc_unit(res: CheckResult, name: str, progs: List[dict], ic: Any, mode: str
         raise MachineryError("unit {}: no behaviour sampled".format(name))
     res.traces += nrun
     res.evaluations += nrun
-    ndiag = 0
-    if mism:
-        batch = mism[:200]
-        rv, verdicts = C.validate_traces(batch, cur, async_sched)
-        if rv.error:
-            raise MachineryError("trace validation failed: " + rv.error[:1500])
-        for it, vd in zip(batch, verdicts):
-            if vd is None:
-                raise MachineryError("no verdict for trace of program {}".format(it["pid"]))
-            ndiag += 1
-            if vd["verdict"] == "ok":
-                res.note("unit {}: a trace differs from the model's log but is accepted".format(name))
-                continue
-            if vd["verdict"] == "truncated":
-                clause, props = "exc.dropped", {"C11"}
-                vd = dict(vd, exp=["?"], act=["eot"])
-            else:
-                clause, props = attribute(vd, it["prog"])
-            what = "family {}: expected {} but the implementation did {} (event {} of program {}, schedule {})".format(
-                name, vd.get("exp"), vd.get("act"), vd.get("at"), it["pid"], "".join(str(e[1]) for e in it["log"]))
-            if res.prop in props:
-                res.violation(clause, what, {"signature": clause, "unit": name, "program": it["prog"],
-                                             "recorded": it["log"], "expected": it["expected"], "diagnosis": vd})
-            elif not props:
-                raise MachineryError("unclassified divergence ({}): {}".format(clause, what))
-            else:
-                res.note("nonconformance outside {} (clause={} -> {}) in unit {}".format(
-                    res.prop, clause, ",".join(sorted(props)), name))
+    ndiag = diagnose(res, name, mism, cur, async_sched)
     res.add_unit(name, programs=len(progs), states=r_off.distinct, schedules_replayed=nrun, mismatches=len(mism),
                  diagnosed=ndiag, mode=mode)
+
+
+def pair_unit(res: CheckResult, name: str, progs: List[dict], ic: Any) -> None:
+    """C13: the same program rendered with `def` and with `async def` must produce the same event log."""
+    progs = F.number(progs)
+    npairs = 0
+    for p in progs:
+        q = F.async_twin(p)
+        if q is None:
+            continue
+        a, _ = C.run_impl(p, ic)
+        b, _ = C.run_impl(q, ic)
+        npairs += 1
+        if a != b:
+            i = next((i for i, (x, y) in enumerate(zip(a, b)) if x != y), min(len(a), len(b)))
+            what = "unit {}: sync and async renderings diverge at event {}: sync {} / async {}".format(
+                name, i, a[i] if i < len(a) else None, b[i] if i < len(b) else None)
+            res.violation("async.diverges_from_sync", what,
+                          {"signature": "async.diverges_from_sync", "program": p, "sync": a, "async": b})
+        elif len(res.samples) < 4 and npairs % 499 == 1:
+            res.samples.append({"unit": name, "program": p, "events_sync_and_async": a[:40]})
+    if npairs == 0:
+        raise MachineryError("unit {}: no sync/async pair".format(name))
+    res.traces += 2 * npairs
+    res.evaluations += npairs
+    res.add_unit(name, pairs=npairs)
